@@ -76,7 +76,7 @@ type tlsSess struct {
 }
 
 func dialTLS(addr string, wd time.Duration) (*tlsSess, error) {
-	c, err := net.DialTimeout("tcp", addr, wd)
+	c, err := sut.DialTCP(addr, wd)
 	if err != nil {
 		return nil, err
 	}
